@@ -6,7 +6,7 @@
 
 use super::entry::{run_script, Depth, Script};
 use super::Prop;
-use crate::gen::faults;
+use crate::gen::{faults, faults_container};
 use crate::rt::*;
 
 pub struct C01 {
@@ -16,8 +16,30 @@ pub struct C01 {
 
 impl C01 {
     pub fn new(cx: &mut Ctx) -> C01 {
-        let max = if cx.quick() { 260_000 } else { 4_000_000 };
+        // mode "tiny": only the smallest seeds (Miri / valgrind volumes)
+        let max = if cx.mode == "tiny" { 5_000 } else if cx.quick() { 260_000 } else { 4_000_000 };
         let seeds = load_seed_fonts(max, true);
+        let mut seeds = seeds;
+        // Derived seeds: small CID-keyed CFF fonts (several Font DICTs, FDSelect, local subrs) cut out
+        // of the one large CID fixture with allsorts' own subsetter, so that the quick tier reaches the
+        // CID paths too. (Seeds need not be independent of allsorts; they only have to be well-formed.)
+        if cx.mode != "tiny" {
+            if let Ok(big) = std::fs::read("/repo/tests/fonts/noto/NotoSansJP-Regular.otf") {
+                for (k, step) in [(0u16, 97u16), (1, 211), (2, 401)] {
+                    let made = std::panic::catch_unwind(|| {
+                        let scope = allsorts::binary::read::ReadScope::new(&big);
+                        let fd = scope.read::<allsorts::font_data::FontData<'_>>().ok()?;
+                        let p = fd.table_provider(0).ok()?;
+                        let mut ids: Vec<u16> = vec![0];
+                        ids.extend((1..70u16).map(|i| i * step + k));
+                        allsorts::subset::subset(&p, &ids).ok()
+                    });
+                    if let Ok(Some(data)) = made {
+                        seeds.push(SeedFont { name: format!("derived/NotoSansJP-cid-subset-{}.otf", k), data });
+                    }
+                }
+            }
+        }
         let mut witnesses = Vec::new();
         for p in list_files("/verif/findings/witness", &["bin"]) {
             if let Ok(d) = std::fs::read(&p) {
@@ -68,7 +90,8 @@ impl Prop for C01 {
             }
         }
         for (i, f) in self.seeds.iter().enumerate() {
-            if i as u64 % of == shard && (cx.tier == Tier::Thorough || f.data.len() < 40_000) {
+            let stride = if cx.mode == "tiny" { of * 8 } else { of };
+            if i as u64 % stride == shard && (cx.tier == Tier::Thorough || f.data.len() < 40_000) {
                 cx.case_seed = 0xFFFE_0000 + i as u64;
                 cx.evals += 1;
                 cx.class("clean-seed");
@@ -83,13 +106,44 @@ impl Prop for C01 {
             return;
         }
         // bias towards small seeds (cheap) but keep the large ones in play
-        let f = if rng.chance(3, 4) {
+        let derived: Vec<usize> = self.seeds.iter().enumerate().filter(|(_, f)| f.name.starts_with("derived/")).map(|(i, _)| i).collect();
+        let f = if !derived.is_empty() && rng.chance(1, 10) {
+            // small CID-keyed CFF fonts: few such seeds, so they get their own share
+            &self.seeds[*rng.pick(&derived)]
+        } else if rng.chance(3, 4) {
             let k = rng.below(self.seeds.len());
             let k2 = rng.below(self.seeds.len());
             if self.seeds[k].data.len() < self.seeds[k2].data.len() { &self.seeds[k] } else { &self.seeds[k2] }
         } else {
             &self.seeds[rng.below(self.seeds.len())]
         };
+        // F6: container faults behind the compression layer (WOFF2 transforms, WOFF directory/zlib)
+        if rng.chance(1, 5) {
+            let name = f.name.clone();
+            if rng.chance(2, 3) {
+                let tt = if rng.chance(1, 3) { Some(super::c11::gen_ttfont(rng, true)) } else { super::c11::read_ttfont(&f.data, &name) };
+                if let Some(tt) = tt {
+                    let (data, desc) = faults_container::woff2_case(rng, cx, &tt);
+                    cx.class("fault:woff2-container");
+                    for d in desc.iter().skip(1) {
+                        // class = operator family only (no tags / numbers)
+                        let w0 = d.split(|c: char| c == '+' || c == '[' || c == '=' || c == ' ' || c == ':' || c == '@').next().unwrap_or("");
+                        let w0 = match w0 {
+                            "w2.glyf" | "w2.hmtx" | "w2.loca" | "w2.dir" | "w2.hdr" | "w2" => w0.to_string(),
+                            _ => "w2.other-table".to_string(),
+                        };
+                        let w1 = if w0 == "w2" { d.split(' ').filter(|w| w.chars().all(|c| c.is_ascii_alphabetic() || c == '_' || c == '-')).nth(0).unwrap_or("").to_string() } else { String::new() };
+                        cx.class(&format!("fault:{}{}{}", w0, if w1.is_empty() { "" } else { " " }, w1));
+                    }
+                    self.run(cx, rng, &name, &data, &desc);
+                    return;
+                }
+            } else if let Some((data, desc)) = faults_container::woff_case(rng, &f.data) {
+                cx.class("fault:woff-container");
+                self.run(cx, rng, &name, &data, &desc);
+                return;
+            }
+        }
         let mut data = f.data.clone();
         let nfaults = 1 + rng.small(3);
         let donors: Vec<&[u8]> = (0..2).map(|_| self.seeds[rng.below(self.seeds.len())].data.as_slice()).collect();
